@@ -77,6 +77,8 @@ def run(tier):
     parents = v["parents"]
     singletons = set(v["tokens"]["singleton_composite_names"])
     nctx = 0
+    byname = {}
+    import mappyfile
     try:
         for h in sl:
             info = h[-1]["info"]
@@ -147,11 +149,75 @@ def run(tier):
                     continue
                 if msgs:
                     ck.violation("C19|validate|%s" % where, "a schema-valid representative does not validate: %r" % [m["error"][:80] for m in msgs[:2]], {"text": text})
+                    continue
+                # the module-level function picks the schema from the root object's type
+                try:
+                    pub = mappyfile.validate(d)
+                except Exception as ex:  # noqa: BLE001
+                    ck.violation("C19|validate-raised|module-api|%s|%s" % (root, type(ex).__name__), "mappyfile.validate raised %s" % ex, {"text": text})
+                    continue
+                if pub:
+                    ck.violation("C19|validate|module-api|%s" % root, "mappyfile.validate rejects a schema-valid %s at the root: %r" % (root.upper(), [m["error"][:80] for m in pub[:2]]),
+                                 {"text": text})
+                if ctxp is None and pos == "alone":
+                    byname.setdefault(slot[1], []).append((t, d))
     finally:
         mlog.removeHandler(catcher)
         mlog.setLevel(old_level)
+    # ---- one print of several root objects: a keyword that several block types define (differently) is looked up per
+    # block type, so dumps([a, b, ...]) is the concatenation of the single prints, in any order
+    ngroups = 0
+    for kw, group in sorted(byname.items()):
+        if len(set(t for t, _ in group)) < 2:
+            continue
+        ngroups += 1
+        for order in (group, group[::-1]):
+            ck.count()
+            try:
+                whole = dumps([d for _, d in order])
+                parts = "\n".join(dumps(d) for _, d in order)
+            except Exception as ex:  # noqa: BLE001
+                ck.violation("C19|printer-lookup|shared-keyword|%s|%s" % (kw, type(ex).__name__), "printing objects of several types in one call raised %s" % ex, {"keyword": kw})
+                break
+            if whole != parts:
+                ck.violation("C19|printer-lookup|shared-keyword|%s" % kw,
+                             "keyword %s is printed differently when objects of the types %s are written in one call" % (kw.upper(), sorted(set(t for t, _ in group))),
+                             {"keyword": kw, "one_call": whole[:1500], "single_calls": parts[:1500]})
+                break
+    # ---- the auto-creating dict: reading the storage key of a child block type that is not there yet gives the container
+    # the transformer / printer / parent schema use (list under the plural key, dict under the singleton key), and
+    # a child appended to that list prints and re-loads like the nested text
+    nauto = 0
+    for ct, plist in sorted(parents.items()):
+        for pinfo in plist:
+            pt = pinfo[0]
+            if pt == ct and False:
+                continue
+            ck.count()
+            nauto += 1
+            key = ct if ct in singletons else faults.plural(ct)
+            try:
+                base = loads("%s END" % pt.upper())
+                got = base[key]
+            except Exception as ex:  # noqa: BLE001
+                ck.violation("C19|auto-create|%s<%s|%s" % (ct, pt, type(ex).__name__), "reading %s[%r] raised %s" % (pt, key, ex), {})
+                continue
+            want_list = ct not in singletons
+            if isinstance(got, list) != want_list or (not want_list and not hasattr(got, "keys")):
+                ck.violation("C19|auto-create|%s<%s" % (ct, pt), "%s[%r] auto-creates a %s; the transformer, printer and schema use a %s there"
+                             % (pt, key, type(got).__name__, "list" if want_list else "dict"), {"parent": pt, "key": key})
+                continue
+            if want_list:
+                try:
+                    got.append(loads("%s END" % ct.upper()))
+                    d_auto = loads(dumps(base))
+                    d_text = loads("%s %s END END" % (pt.upper(), ct.upper()))
+                except Exception as ex:  # noqa: BLE001
+                    ck.violation("C19|auto-create|%s<%s|%s" % (ct, pt, type(ex).__name__), "appending a %s to the auto-created %s[%r] then printing raised %s" % (ct, pt, key, ex), {})
+                    continue
+                if project.diff(project.project(d_auto), project.project(d_text)):
+                    ck.violation("C19|auto-create|%s<%s|differs" % (ct, pt), "a %s appended to the auto-created list re-loads differently from the nested text" % ct, {"parent": pt, "key": key})
     # ---- part 3: defaults and create()
-    import mappyfile
     ncreate = 0
     for t in sorted(v["schema"]["types"]):
         if t == "symbolset":
@@ -181,5 +247,5 @@ def run(tier):
                 ck.violation("C19|default-invalid|%s.%s" % (t, kw), "the declared default of %s.%s is not valid for its own keyword: %s" % (t, kw, m["error"][:100]),
                              {"type": t, "version": ver})
     ck.sample({"probe": sl[3][-1]["info"], "versions": [str(x) for x in VERSIONS]})
-    return ck.finish(exhaustive=True, coverage_extra={"rules": len(rep[0]), "slot_probes": len(sl), "parent_context_probes": nctx,
+    return ck.finish(exhaustive=True, coverage_extra={"rules": len(rep[0]), "slot_probes": len(sl), "parent_context_probes": nctx, "shared_keyword_groups": ngroups, "auto_create_probes": nauto,
                                                        "create_calls": ncreate})
